@@ -1,6 +1,6 @@
 (* Extraction unit c03 (C03 chunk integrity, C04 reassembly). Only ExtrOcamlBasic. *)
 From Coq Require Import Extraction ExtrOcamlBasic.
-From AG Require Import Base.Prelude Base.Res Base.Bytes Codec.Crc32c Codec.Chunk Codec.ChunkObs Codec.Reasm Ident.Tables.
+From AG Require Import Base.Prelude Base.Res Base.Bytes Codec.Crc32c Codec.Chunk Codec.ChunkObs Codec.Reasm Codec.Pwb Ident.Tables.
 
 Extraction Language OCaml.
 Extraction Blacklist String List Int Z Str Unix Array Bytes Char.
@@ -10,4 +10,4 @@ Extraction Inline guard assert_.
 Extraction "model.ml"
   Base.Prelude.ex_base Base.Res.res
   Codec.Crc32c.crc32c_raw Codec.Chunk.chunk_decode Codec.ChunkObs.chunk_obs Ident.Tables.pwb_devices
-  Codec.Reasm.reasm_struct Codec.Reasm.isort_by_id.
+  Codec.Reasm.reasm_struct Codec.Reasm.isort_by_id Codec.Pwb.pwb_decode Ident.Tables.pwb_macs.
